@@ -22,6 +22,7 @@ from pfimport import exc_enum
 from pipefunc import PipeFunc, Pipeline
 
 import c09_ext
+import c09_mapseq
 import c09_race
 import c09_values
 import framework
@@ -30,7 +31,8 @@ import pipegen
 import terms
 
 PID = "C09"
-PROPS = ["PfModel.Props.C09", "PfModel.Props.C09Outcome", "PfModel.Props.C09Fail", "PfModel.Props.C09Policies", "PfModel.Props.C09Keys"]
+PROPS = ["PfModel.Props.C09", "PfModel.Props.C09Outcome", "PfModel.Props.C09Fail", "PfModel.Props.C09Policies", "PfModel.Props.C09Keys",
+         "PfModel.Props.C09MapHist", "PfModel.Props.C09Stable"]
 DRIVER = "C09"
 RULE = ("random DAGs of 1-4 term-building functions (tuple outputs, shared roots, defaults, bound values, renames) x EVERY subset of "
         "cached functions x {simple, lru, hybrid, disk} x histories of 2-6 steps: calls (random output, random listed argument "
@@ -43,12 +45,21 @@ RULE = ("random DAGs of 1-4 term-building functions (tuple outputs, shared roots
         "call, first call again' on a chain whose second function is downstream of the owner of a defaulted parameter.  In 40 % of the "
         "random histories and map cases the argument values have REPRESENTATION FREEDOM (harness/c09_values.py): dicts / defaultdicts / "
         "Counters / sets built in another insertion order, nested containers, separately built lists, tuples and arrays, keywords passed "
-        "in another order - every occurrence of a value is built in a way of its own, the model gets the abstract value.  A history is "
+        "in another order - every occurrence of a value is built in a way of its own, the model gets the abstract value.  MAP SESSIONS "
+        "(harness/c09_mapseq.py): 2-4 successive maps on ONE cached pipeline object and its twin, every pipeline having a mapped function that takes a "
+        "WHOLE upstream mapspec array as a non-indexed parameter (hand families + rejection-sampled mapgen cases), inputs equal / changed in values "
+        "with equal length (all elements or one) / changed in length, storage dict | file_array | shared_memory_dict, run_folder reused | fresh | none, "
+        "every cache type (lru/hybrid also shared, disk also without its LRU front), sequential and thread pool; the model (runRuns, entry map.hist) "
+        "says which element calls of which run execute.  A history is "
         "non-trivial when the model reports at least one cache hit; distinct by (pipeline, cached set, history)")
 ASSUMPTIONS = ["the cache containers are black boxes that keep what was put while below their size limit (C14); LRUCache(max_size=n) is "
                "modelled by the recency-list policy PF.PipeCache.lruPolicy n (= C14's Recency, which C14 proves the LRUCache refines)",
                "to_hashable is injective on the generated values (C15); the model uses a printer of the term as the hashable",
                "root_args is compared with the model's reachable-root set on every case (flag roots_ok), not proved equal",
+               "the `stable` flag of the driver (PF.PipeCache.stableB) implies the hypotheses WF / WFp of the theorems (C09_stable_wf, C09_stable_wfp) given "
+               "that the printer encVal is injective on the default values of the case (not proved for encVal in general)",
+               "map sessions: the element calls of a run are those of C01's map.run on that run's inputs; the container is the unbounded one (max_size 4096 "
+               "in the generated sessions); a thread-pool run is compared by its DISTINCT element calls",
                "user functions never raise (C13's business); a call fails in the middle of the evaluation only for a missing argument or an unknown output",
                "PipeFunc.update_defaults applied to a single function of a pipeline (which can make shared defaults inconsistent) is not generated",
                "values with representation freedom reach the model as their abstract value (equal Python objects of the same type = equal PF.Val); keys that "
@@ -1052,6 +1063,7 @@ def run(ctx):
                     found_near.append(found)
         _guarded(ctx, None, "shrink and report the failing histories", report_failures, ctx, found_near, base)
         _guarded(ctx, None, "run the map stream", run_maps, ctx, rng, base)
+        _guarded(ctx, None, "run the map-session stream", c09_mapseq.stream, ctx, rng, base, cache_args, _guarded)
         _guarded(ctx, None, "run the race stream", run_race, ctx, base)
         _guarded(ctx, None, "run the extension streams", c09_ext.run_ext, ctx, base)
     finally:
@@ -1153,6 +1165,9 @@ def replay(ctx, case):
             print("implementation:", c09_race.run_case(case, base))
             return
         if str(case.get("kind", "")).startswith("ext:"): c09_ext.replay_ext(ctx, case); return
+        if case.get("kind") == "mapseq":
+            c09_mapseq.replay(ctx, case, base, cache_args)
+            return
         if case.get("kind") == "map":
             print("implementation:", run_map_case(case["desc"], case["cache"], case["mode"], base))
             return
